@@ -99,7 +99,7 @@ static void ls_dir(const char* root, const char* rel, int depth, int* first) {
         snprintf(r, sizeof r, "%s%s%s", rel, rel[0] ? "/" : "", e->d_name);
         snprintf(p, sizeof p, "%s/%s", root, r);
         if (lstat(p, &st)) continue;
-        printf("%s{\"name\":\"%s\",\"type\":\"%s\",\"size\":%lld", *first ? "" : ",", r, S_ISDIR(st.st_mode) ? "dir" : S_ISLNK(st.st_mode) ? "link" : "file", (long long)st.st_size);
+        printf("%s{\"name\":\"%s\",\"type\":\"%s\",\"size\":%lld,\"ino\":%llu", *first ? "" : ",", r, S_ISDIR(st.st_mode) ? "dir" : S_ISLNK(st.st_mode) ? "link" : "file", (long long)st.st_size, (unsigned long long)st.st_ino);
         *first = 0;
         if (S_ISREG(st.st_mode)) {
             FILE* f = fopen(p, "rb"); U8 buf[64]; size_t n, k; long long sz = (long long)st.st_size;
